@@ -802,6 +802,69 @@ func rv3PreludeEncodingGate(w *World) {
 	} else {
 		w.violation("encoding-gate", sw.Pos(), bad+": the main loop assumes valid UTF-8, so such input makes the lexer fail to make progress or build malformed spans (internal compiler errors instead of an encoding diagnostic)")
 	}
+	// the gate is on every path: lexPrelude may answer "go on" (return true) only after the gate
+	// switch has been evaluated — an earlier `return true` (say, "a BOM settles the encoding")
+	// lets undecodable bytes into the main loop all the same
+	firstCase := map[ast.Node]bool{}
+	for _, c := range sw.Body.List {
+		cc := c.(*ast.CaseClause)
+		for _, e := range cc.List {
+			firstCase[e] = true
+		}
+		if len(cc.List) > 0 {
+			break
+		}
+	}
+	isGate := func(n ast.Node) bool {
+		hit := false
+		ast.Inspect(n, func(y ast.Node) bool {
+			if firstCase[y] {
+				hit = true
+			}
+			return !hit
+		})
+		return hit
+	}
+	gateParents := parentMap(prelude.Decl.Body)
+	emptyInput := func(r ast.Node) bool {
+		// `if <text> == "" { return true }` / `if len(<text>) == 0 { … }`: nothing to validate
+		blk, _ := gateParents[r].(*ast.BlockStmt)
+		ifs, _ := gateParents[blk].(*ast.IfStmt)
+		if ifs == nil || ifs.Body != blk {
+			return false
+		}
+		be, ok := ast.Unparen(ifs.Cond).(*ast.BinaryExpr)
+		if !ok || be.Op != token.EQL {
+			return false
+		}
+		if tv, ok := info.Types[be.Y]; ok && tv.Value != nil {
+			if tv.Value.Kind() == constant.String && constant.StringVal(tv.Value) == "" {
+				return true
+			}
+			if c, ok := ast.Unparen(be.X).(*ast.CallExpr); ok && isBuiltinCall(info, c, "len") {
+				if v, ok := constant.Int64Val(constant.ToInt(tv.Value)); ok && v == 0 {
+					return true
+				}
+			}
+		}
+		return false
+	}
+	isProceed := func(n ast.Node) bool {
+		r, ok := n.(*ast.ReturnStmt)
+		if !ok || len(r.Results) != 1 || emptyInput(r) {
+			return false
+		}
+		tv, ok := info.Types[r.Results[0]]
+		return ok && tv.Value != nil && tv.Value.Kind() == constant.Bool && constant.BoolVal(tv.Value)
+	}
+	nb, early := mustPrecede(info, prelude.Decl.Body, isGate, isProceed)
+	if nb == 0 {
+		w.undecided("encoding-gate|on-every-path", prelude.Decl.Pos(), "lexPrelude has no `return true`")
+	} else if len(early) == 0 {
+		w.ok("encoding-gate|on-every-path", sw.Pos(), fmt.Sprintf("each of the %d `return true` of lexPrelude is preceded on every path by the encoding gate", nb))
+	} else {
+		w.violation("encoding-gate|on-every-path", early[0].Pos(), "lexPrelude can return true at "+w.pos(early[0].Pos())+" without having evaluated the UTF-8 gate: the whole-file scan is the only thing that keeps undecodable bytes out of the main loop (peek/pop return -1 without advancing), so such a file ends in 'lexer failed to make progress' or a reversed span — internal compiler errors")
+	}
 }
 
 // rz2SorterCleanup (RZ2, C41): the iterator returned by Sorter.Sort keeps scratch state in the
